@@ -180,6 +180,10 @@ type destinationTripper struct {
 	keepAlives      bool
 	wellKnownSRV    bool
 	dialer          *net.Dialer
+	// wellKnownClient sends the .well-known requests of server name resolution. It is
+	// nil (the default transport is used) unless a DNS cache or allow / deny networks
+	// are configured, in which case those requests are dialled like every other one.
+	wellKnownClient *http.Client
 }
 
 func newDestinationTripper(skipVerify bool, dnsCache *DNSCache, keepAlives, wellKnownSRV bool, allowCIDRs []string, denyCIDRs []string) *destinationTripper {
@@ -190,6 +194,19 @@ func newDestinationTripper(skipVerify bool, dnsCache *DNSCache, keepAlives, well
 		keepAlives:   keepAlives,
 		wellKnownSRV: wellKnownSRV,
 		dialer:       newDestinationTripperDialer(allowCIDRs, denyCIDRs),
+	}
+	if dnsCache != nil || len(allowCIDRs) > 0 || len(denyCIDRs) > 0 {
+		transport := &http.Transport{
+			DisableKeepAlives: !keepAlives,
+			TLSClientConfig:   &tls.Config{InsecureSkipVerify: skipVerify},
+			DialContext:       tripper.dialer.DialContext,
+			Proxy:             http.ProxyFromEnvironment,
+			ForceAttemptHTTP2: true,
+		}
+		if dnsCache != nil {
+			transport.DialContext = dnsCache.DialContext
+		}
+		tripper.wellKnownClient = &http.Client{Transport: transport, Timeout: requestTimeout}
 	}
 	time.AfterFunc(destinationTripperReapInterval, tripper.reaper)
 	return tripper
@@ -346,7 +363,7 @@ retryResolution:
 		// If the cache returned nothing then we'll have no results here,
 		// so go and hit the network.
 		if len(resolutionResults) == 0 {
-			resolutionResults, err = ResolveServer(r.Context(), serverName)
+			resolutionResults, err = resolveServer(r.Context(), serverName, true, f.wellKnownClient)
 			if err != nil {
 				return nil, err
 			}
